@@ -797,7 +797,14 @@ impl SymbolicBDD {
                     }
                 }
             } else if let Some(number) = c.name("countable") {
-                let parsed_number = number.as_str().parse().expect("Failed to parse number");
+                // \d matches every Unicode digit and any number of them; usize::from_str
+                // accepts neither non-ASCII digits nor values above usize::MAX
+                let parsed_number = number.as_str().parse().map_err(|_| {
+                    io::Error::new(
+                        io::ErrorKind::InvalidData,
+                        format!("Number out of range: {}", number.as_str()),
+                    )
+                })?;
                 result.push(SymbolicBDDToken::Countable(parsed_number));
             } else if c.name("eof").is_some() {
                 result.push(SymbolicBDDToken::Eof);
